@@ -13,6 +13,8 @@
 package vtime
 
 import (
+	"bytes"
+	"runtime"
 	"sort"
 	"sync"
 	"sync/atomic"
@@ -202,6 +204,10 @@ func Advance(d Duration) {
 		default:
 			select {
 			case e.ch <- at:
+				// a one-shot timer read through its channel (a cleanup loop built on time.Timer, a
+				// select on time.After): let the reader do what the expiry makes it do - including
+				// re-arming the timer - at this virtual instant, before the clock moves on
+				Quiesce(wait)
 			default:
 			}
 		}
@@ -264,6 +270,64 @@ func deliverTick(e *event, at time.Time, wait time.Duration) {
 	if send() {
 		send()
 	}
+}
+
+// Quiesce waits (at most max) until every other goroutine of the process is blocked - in a channel
+// operation, a select, a lock, a wait - twice in a row: whatever the last event set in motion has run
+// to its next blocking point.  It reports whether that state was reached.
+func Quiesce(max time.Duration) bool {
+	deadline := time.Now().Add(max)
+	buf := make([]byte, 1<<16)
+	stable := 0
+	for {
+		n := runtime.Stack(buf, true)
+		if n == len(buf) {
+			buf = make([]byte, 2*len(buf))
+			continue
+		}
+		if othersBlocked(buf[:n]) {
+			stable++
+			if stable >= 2 {
+				return true
+			}
+		} else {
+			stable = 0
+		}
+		if time.Now().After(deadline) {
+			quiesceMisses.Add(1)
+			return false
+		}
+		runtime.Gosched()
+	}
+}
+
+var quiesceMisses atomic.Int64
+
+// QuiesceMisses counts the waits for quiescence that ran out of time.
+func QuiesceMisses() int64 { return quiesceMisses.Load() }
+
+// othersBlocked parses an all-goroutine stack dump: the first record is the caller; every other
+// goroutine must be in a state other than running / runnable.
+func othersBlocked(dump []byte) bool {
+	recs := bytes.Split(dump, []byte("\n\n"))
+	for i, r := range recs {
+		if i == 0 || !bytes.HasPrefix(r, []byte("goroutine ")) {
+			continue
+		}
+		a := bytes.IndexByte(r, '[')
+		b := bytes.IndexByte(r, ']')
+		if a < 0 || b < a {
+			continue
+		}
+		st := r[a+1 : b]
+		if c := bytes.IndexByte(st, ','); c >= 0 {
+			st = st[:c]
+		}
+		if bytes.Equal(st, []byte("running")) || bytes.Equal(st, []byte("runnable")) {
+			return false
+		}
+	}
+	return true
 }
 
 // Sleep pauses the caller; on the virtual clock with auto-advance it moves
